@@ -7,5 +7,6 @@ open SSVerif.Json
 #print axioms C14_json_says_iterators
 #print axioms C14_escape_fits
 #print axioms C14_escape_roundtrip
+#print axioms C14_escape_utf8
 #print axioms resultJson_exact
 #print axioms hypPieces_eq
